@@ -515,7 +515,7 @@ def intro_request_parts(com_cls) -> str:
     if between != ["self.network.add_verified_peer(peer)", "self.network.discover_services(peer, [self.community_id])"]:
         raise TranslatorError(f"on_introduction_request: unexpected statements before the response: {between}")
     return ("/-- on_introduction_request: the request is dropped (no answer) when this holds -/\n"
-            f"def atCapacity (max_peers n_peers : Nat) : Bool :=\n  {guard}\n\n"
+            f"def atCapacity (max_peers n_peers : Int) : Bool :=\n  {guard}\n\n"
             "/-- on_introduction_request: is the sender's LAN address recorded, and which value -/\n"
             f"def learnsLan (payload : IntroReqView) : Bool :=\n  {cond}\n"
             f"def learnedLan (payload : IntroReqView) : Addr :=\n  {val}\n\n"
